@@ -137,6 +137,55 @@ StackLaws ==
          [] op = "STACKDEPTH" -> R.post.int[1] = Len(R.post[f]) /\ (f # "int" => after = before)
          [] OTHER -> TRUE
 
+\* C04 on the specification: algebraic sanity of the scalar reference itself
+ScalarLaws ==
+  phase = "pre" /\ IsInstrCase /\ R.fired =>
+    LET i == Body.int  f == Body.float IN
+    /\ (Ins \in {"INTEGER.MAX", "INTEGER.MIN"} /\ R.holes = <<>> =>
+          /\ R.post.int[1] \in {i[1], i[2]}
+          /\ (Ins = "INTEGER.MAX" => R.post.int[1] >= i[1] /\ R.post.int[1] >= i[2])
+          /\ (Ins = "INTEGER.MIN" => R.post.int[1] <= i[1] /\ R.post.int[1] <= i[2]))
+    /\ (Ins = "INTEGER.-" /\ R.holes = <<>> /\ SubFits(i[1], i[2]) /\ NegFits(i[1] - i[2]) =>
+          R.post.int[1] = -(i[1] - i[2]))                                   \* second - top = -(top - second)
+    /\ (Ins \in {"INTEGER.<", "INTEGER.=", "INTEGER.>"} =>                  \* trichotomy
+          Cardinality({op \in {"INTEGER.<", "INTEGER.=", "INTEGER.>"} : Apply(op, Body).post.bool[1]}) = 1)
+    /\ (Ins \in {"FLOAT.<", "FLOAT.=", "FLOAT.>"} /\ ~FIsNaN(f[1]) /\ ~FIsNaN(f[2]) =>
+          Cardinality({op \in {"FLOAT.<", "FLOAT.=", "FLOAT.>"} : Apply(op, Body).post.bool[1]}) = 1)
+    /\ (Ins \in {"INTEGER./", "INTEGER.%"} /\ i[1] # 0 /\ DivFits(i[2], i[1]) =>   \* a = b*q + r with |r| < |b|
+          LET q == TruncDiv(i[2], i[1])  r == TruncRem(i[2], i[1])  b == i[1] IN
+          /\ i[2] = b * q + r
+          /\ r > (IF b > 0 THEN -b ELSE b) /\ (b = MinInt \/ r < (IF b > 0 THEN b ELSE -b)))
+    /\ (Ins = "FLOAT.FROMINTEGER" /\ i[1] > -16777216 /\ i[1] < 16777216 => FToInt(R.post.float[1]) = i[1])  \* exact round trip
+
+\* C09 on the specification: the overlap rule
+VectorLaws ==
+  phase = "pre" /\ IsInstrCase /\ R.fired =>
+    /\ (Ins \in {"BOOLVECTOR.AND", "BOOLVECTOR.OR", "INTVECTOR.+", "INTVECTOR.-", "FLOATVECTOR.+", "FLOATVECTOR.-", "FLOATVECTOR.*"} =>
+          LET fld == Footprint(Ins).r \ {"int"}
+              vf  == CHOOSE x \in fld : TRUE
+              top == Body[vf][1]  second == Body[vf][2]  off == Body.int[1]  res == R.post[vf][1]
+          IN /\ Len(res) = Len(second)                                                   \* V2
+             /\ \A j \in 1..Len(second) : SrcPos(j, off, Len(top)) = 0 => res[j] = second[j]   \* V1, V3
+             /\ \A h \in 1..Len(R.holes) : SrcPos(R.holes[h].p[3], off, Len(top)) # 0)        \* only combined cells are open
+    /\ (Ins \in {"INTVECTOR.SORT*ASC", "INTVECTOR.SORT*DESC", "BOOLVECTOR.SORT*ASC", "FLOATVECTOR.SORT*ASC"} =>      \* V4
+          LET vf == CHOOSE x \in Footprint(Ins).r : TRUE
+              res == R.post[vf][1]
+          IN IsPerm(res, Body[vf][1]) /\
+             (Ins = "INTVECTOR.SORT*ASC" => \A j \in 1..(Len(res) - 1) : res[j] <= res[j + 1]) /\
+             (Ins = "INTVECTOR.SORT*DESC" => \A j \in 1..(Len(res) - 1) : res[j] >= res[j + 1]))
+    /\ (Ins = "INTVECTOR.APPEND" => Len(R.post.ivec[1]) = Len(Body.ivec[1]) + 1 /\ Last(R.post.ivec[1]) = Body.int[1])   \* V5
+    /\ (Ins = "INTVECTOR.ROTATE" => Len(R.post.ivec[1]) = Len(Body.ivec[1]))
+    /\ (Ins = "INTVECTOR.REMOVE" => ~Contains(R.post.ivec[1], Body.int[1]))
+
+\* C19 on the specification: LIST.ADD moves exactly the designated items into one record, in vector order
+AllAtoms(s) == Len(s.int) + Len(s.float) + Len(s.bool) + Len(s.name) + Len(s.bvec) + Len(s.ivec) + Len(s.fvec)
+               + SumSeq([i \in 1..Len(s.code) |-> Len(Atoms(s.code[i]))]) + SumSeq([i \in 1..Len(s.exec) |-> Len(Atoms(s.exec[i]))])
+ListLaws ==
+  phase = "pre" /\ IsInstrCase /\ Ins = "LIST.ADD" /\ R.fired =>
+    /\ Len(R.post.code) >= 1 /\ R.post.code[1].k = "list"
+    /\ AllAtoms(R.post) = AllAtoms(Body) - 1                    \* only the id vector disappears (LS4)
+    /\ Len(R.post.code[1].v) <= Len(Body.ivec[1])               \* at most one item per id (LS1)
+
 \* every case is printed for replay (always TRUE)
 Emit == phase = "pre" => PrintT("CASE " \o ToJson([f \in (IF IsInstrCase THEN Reads(Ins) ELSE {}) \cup {"exec", "quote"} |-> pre[f]]))
 =============================================================================
